@@ -176,3 +176,35 @@ Proof.
     - cbn [fst snd]. split; [reflexivity|]. destruct lock; cbn [lockv]; [exact Hv|exact Hsub0]. }
   constructor; [exact Hstep|]. apply IH; [|exact HF']. unfold o_cell; cbn [fst]. apply Hstep.
 Qed.
+
+(* ------------------------------------------------------------------ adaptation bookkeeping, clear *)
+(* without `adapt` (or for a class without adaptation) forward leaves the adaptation state untouched *)
+Theorem forward_keeps_adaptation :
+  forall c p adapt lock cs xs, (adapt = false \/ has_adaptation c = false) ->
+    Forall2 (fun col' col => ad RN col' = ad RN col) (snd (forward RN c p adapt lock cs xs))
+            (firstn (length (snd (forward RN c p adapt lock cs xs))) cs).
+Proof.
+  intros c p adapt lock cs xs H. unfold forward. cbn [snd]. rewrite map_length.
+  revert xs. induction cs as [|col cs IH]; intros [|row xs]; cbn [map2 map length firstn]; try constructor.
+  - unfold col_forward. cbn [snd ad]. destruct H as [-> | H]; [reflexivity|].
+    destruct adapt; [|reflexivity]. destruct c; try discriminate; reflexivity.
+  - apply IH.
+Qed.
+
+(* clear(): every cell back to (rest_v, 0); adaptations zeroed unless kept *)
+Theorem clear_spec :
+  forall c p keep cs,
+    all_cells (fun ce => ce = (rest_v RN p, 0)) (clear RN c p keep cs) /\
+    (has_adaptation c = true -> keep = false ->
+       Forall (fun col => Forall (fun a => a = 0) (ad RN col)) (clear RN c p keep cs)) /\
+    (keep = true -> map (ad RN) (clear RN c p keep cs) = map (ad RN) cs) /\
+    map (fun col => length (cells RN col)) (clear RN c p keep cs) = map (fun col => length (cells RN col)) cs.
+Proof.
+  intros c p keep cs. unfold clear, all_cells. repeat split.
+  - rewrite Forall_map. apply Forall_forall. intros col _. cbn [cells]. rewrite Forall_map.
+    apply Forall_forall. intros ce _. reflexivity.
+  - intros Ha Hk. rewrite Ha, Hk. cbn [andb negb]. rewrite Forall_map. apply Forall_forall. intros col _. cbn [ad].
+    rewrite Forall_map. apply Forall_forall. intros a _. reflexivity.
+  - intros ->. rewrite map_map. cbn [ad negb]. rewrite andb_false_r. reflexivity.
+  - rewrite map_map. cbn [cells]. apply map_ext. intros col. apply map_length.
+Qed.
